@@ -1,3 +1,7 @@
+/-
+C06 — NAF layer, part 2: the loop invariant `NafInv` of `wwNAF` and its preservation (`nafInv_step`):
+`d = Σ_{j<k} e_j 2^j + 2^k (window + 2^w (d >>> (w+k)))`, `window ≤ 2^w`, and at exit the first code is odd, positive.
+-/
 import Bee2V.C06.LemmasNaf
 namespace Bee2V.C06.MulL
 open Bee2V.C06
